@@ -13,7 +13,7 @@ ASSUME = [
     "two different initial zooms must end within 1e-3 of each other",
     "S = sigma_z^2 + sigma_E^2 - 2 decays by exp(-e1*steps) per synchrotron period (+-5%), e1 = 2/(f_s*t_d*steps) from an independent derivation of f_s; measured where 0.05 < |S - S_final| < 1 (wider distributions are still being clipped by the grid), from the second period on (a start wider than the grid allows is clipped during the first period); initial zoom factors 0.5..1.7 (0.5..1.2 where nothing damps)",
     "damping only: both widths decrease strictly from one period to the next (run stopped before the bunch is narrower than four cells); diffusion only: both increase strictly; neither (FPType 0 or zero damping time): sigma_z^2+sigma_E^2 stays within 1e-3 relative and each width within the first-order splitting error a*sigma, over at most 1600 steps",
-    "per-step decrements up to half the explicit scheme's stability limit (e1 <= 0.25*delta^2)",
+    "per-step decrements mostly up to half the explicit scheme's stability limit (e1 <= 0.25*delta^2), one group in six at 0.3-0.45*delta^2 (the stable range ends at 0.5)",
 ]
 
 
@@ -28,6 +28,8 @@ def gen(seed, i, tier):
     steps = r.choice([50, 100, 200, 500] if tier == "thorough" else [50, 100, 200])
     d = 12.0 / (n - 1)
     e1 = min(r.loguniform(1.2e-3, 8e-3), 0.25 * d * d)
+    if i % 6 == 1:
+        e1 = r.uniform(0.3, 0.45) * d * d        # upper part of the explicit scheme's stable range (e1/delta^2 < 0.5)
     kind = ["relax", "relax", "relax", "damp", "diff", "none"][i % 6]
     order = r.choice([4, 4, 3, 2]) if kind == "relax" else r.choice([4, 3])
     o = dict(GridSize=n, StepsPerTs=steps, VacuumGap=0, InterpolationPoints=order, derivation=r.choice([3, 4]), outstep=steps)
